@@ -55,6 +55,11 @@ pub struct Case {
     /// credentials carry both secrets, and the request asks for hmac-secret / a PRF evaluation
     #[serde(default)]
     pub ext: bool,
+    /// CTAP2 level: how the request reaches the authenticator: 0 as a struct; 1 encoded and decoded;
+    /// 2 encoded, options with their default value elided, decoded; 3 as 2 and an empty options
+    /// map dropped
+    #[serde(default)]
+    pub wire: u8,
 }
 
 fn cap_of(c: u8) -> Option<bool> {
@@ -83,7 +88,13 @@ pub fn cases() -> Vec<Case> {
                         for pin in [false, true] {
                             for arc_mutex in [false, true] {
                                 for ext in [false, true] {
-                                    v.push(Case { op, rk: bits & 4 != 0, up: bits & 2 != 0, uv: bits & 1 != 0, cap, presence_cap, outcome, pin, arc_mutex, level: 0, uvreq: 0, ext });
+                                    for wire in 0..4u8 {
+                                        // the wire shapes are spread over the store kinds
+                                        if wire != 0 && (arc_mutex != (wire % 2 == 0)) {
+                                            continue;
+                                        }
+                                        v.push(Case { op, rk: bits & 4 != 0, up: bits & 2 != 0, uv: bits & 1 != 0, cap, presence_cap, outcome, pin, arc_mutex, level: 0, uvreq: 0, ext, wire });
+                                    }
                                 }
                             }
                         }
@@ -94,7 +105,7 @@ pub fn cases() -> Vec<Case> {
         for uvreq in 0..4u8 {
             for cap in 0..3u8 {
                 for outcome in 0..7u8 {
-                    v.push(Case { op, rk: false, up: true, uv: false, cap, presence_cap: true, outcome, pin: false, arc_mutex: false, level: 1, uvreq, ext: false });
+                    v.push(Case { op, rk: false, up: true, uv: false, cap, presence_cap: true, outcome, pin: false, arc_mutex: false, level: 1, uvreq, ext: false, wire: 0 });
                 }
             }
         }
@@ -148,7 +159,10 @@ where
     let result = match c.op {
         Op::Make => {
             let ext = c.ext.then(|| passkey_types::ctap2::make_credential::ExtensionInputs { hmac_secret: Some(true), hmac_secret_mc: None, prf: Some(prf()) });
-            let req = mc_request(RP, &[9, 9], list, c.rk, c.up, c.uv, c.pin, ext);
+            let mut req = mc_request(RP, &[9, 9], list, c.rk, c.up, c.uv, c.pin, ext);
+            if c.wire != 0 {
+                req = rewire(&req, 7, c.wire).unwrap_or_else(|e| panic!("{e}"));
+            }
             block_on(auth.make_credential(req)).map(|r| {
                 let fl: u8 = r.auth_data.flags.into();
                 (fl, r.auth_data.attested_credential_data.as_ref().map(|a| a.credential_id().to_vec()).unwrap_or_default())
@@ -156,7 +170,10 @@ where
         }
         Op::Get => {
             let ext = c.ext.then(|| passkey_types::ctap2::get_assertion::ExtensionInputs { hmac_secret: None, prf: Some(prf()) });
-            let req = ga_request(RP, list, c.rk, c.up, c.uv, c.pin, ext);
+            let mut req = ga_request(RP, list, c.rk, c.up, c.uv, c.pin, ext);
+            if c.wire != 0 {
+                req = rewire(&req, 5, c.wire).unwrap_or_else(|e| panic!("{e}"));
+            }
             block_on(auth.get_assertion(req)).map(|r| {
                 let fl: u8 = r.auth_data.flags.into();
                 (fl, r.credential.map(|d| d.id.to_vec()).unwrap_or_default())
@@ -466,7 +483,7 @@ pub fn eval_pair(p: &Pair) -> (Vec<Finding>, String) {
             Op::Get => block_on(auth.get_assertion(ga_request(RP, None, false, true, uvreq, false, None))).map(|r| u8::from(r.auth_data.flags)).map_err(sc_byte),
         });
         let after = shared.recs();
-        let c = Case { op, rk: false, up: true, uv: uvreq, cap: 2, presence_cap: true, outcome, pin: false, arc_mutex: false, level: 0, uvreq: 0, ext: false };
+        let c = Case { op, rk: false, up: true, uv: uvreq, cap: 2, presence_cap: true, outcome, pin: false, arc_mutex: false, level: 0, uvreq: 0, ext: false, wire: 0 };
         let ok = consent_ok(&c, true, uvreq);
         let checked = log.snapshot().iter().any(|e| matches!(e, Event::CheckUser { .. }));
         match r {
